@@ -462,6 +462,8 @@ class Interp:
                 out.append((s, ("raise", ExcVal(v.name, {}, origin="raise@%s" % st.unit.key))))
             elif isinstance(v, (ExcVal, ErrVal)):
                 out.append((s, ("raise", v)))
+            elif isinstance(v, ErrRef):
+                out.append((s, ("raise", s.heap[v.oid])))
             else:
                 raise OutOfSubset("raise of %r" % (v,))
         return out
